@@ -30,6 +30,79 @@ fn refid_u32(r: ReferenceId) -> u32 {
     u32::from_be_bytes(r.to_bytes())
 }
 
+struct NullController;
+
+impl crate::algorithm::SourceController for NullController {
+    fn handle_measurement(&mut self, _m: crate::algorithm::Measurement) {}
+    fn set_usable(&mut self, _usable: bool) {}
+    fn desired_poll_interval(&self) -> crate::time_types::PollInterval {
+        crate::time_types::PollInterval::default()
+    }
+    fn observe(&self) -> crate::ObservableSourceTimedata {
+        crate::ObservableSourceTimedata::default()
+    }
+}
+
+fn id_bits(id: &ServerId) -> Vec<usize> {
+    let mut f = BloomFilter::new();
+    f.add_id(id);
+    bits_of(&f)
+}
+
+/// the wiring invariant of `NtpManager`, evaluated directly on the implementation after every op: ONE server id —
+/// the id handed to the sources (`source_info.server_id`) is the id the manager folds into the advertised Bloom
+/// filter (`server_id`, via `from_used_sources`); the local stratum and address list handed to the sources are the
+/// configured ones; and, end to end on the values a source created through this manager works with: a peer whose
+/// complete Bloom filter is the one this daemon advertises is refused as a loop.
+fn check_wiring(m: &NtpManager, lstrat: u8, ips: &[IpAddr], run: &mut Run) {
+    let si = m.source_info.read().unwrap().clone();
+    if id_bits(&si.server_id) != id_bits(&m.server_id) {
+        run.oracle_fail("one_server_id", "where=manager", "the server id the manager hands to its sources differs from the id it advertises in its Bloom filter");
+    }
+    if si.local_stratum != lstrat || si.ip_list.as_ref() != ips {
+        run.oracle_fail("source_info_wiring", "", "local stratum / address list handed to the sources differ from the configured ones");
+    }
+    // what this manager advertises with no used source: exactly its own id
+    let advertised = NtpSnapshot::from_used_sources(lstrat, m.server_id, std::iter::empty()).bloom_filter;
+    let peer = NtpSourceSnapshot {
+        source_addr: SocketAddr::new(IpAddr::V4(Ipv4Addr::new(192, 168, 1, 5)), 123),
+        source_id: ReferenceId::from_ip(IpAddr::V4(Ipv4Addr::new(192, 168, 1, 5))),
+        poll_interval: crate::time_types::PollInterval::default(),
+        reach: Reach::never(),
+        stratum: 0,
+        reference_id: ReferenceId::NONE,
+        protocol_version: ProtocolVersion::V5,
+        bloom_filter: Some(advertised),
+    };
+    if lstrat > 0 {
+        // stratum 0 < local stratum, not one of our addresses: the Bloom test is the first that can refuse it
+        match peer.accept_synchronization(si.local_stratum, &si.ip_list, si.server_id) {
+            Err(crate::source::AcceptSynchronizationError::Loop) => run.hit("wiring-peer-with-advertised-filter-refused"),
+            other => run.oracle_fail("bloom_loop_end_to_end", &format!("got={:?}", other), "a peer whose full Bloom filter contains this daemon's advertised id is not refused as a loop by a source wired through the manager"),
+        }
+    }
+}
+
+fn gen_manager_case(rng: &mut Rng, idx: u64, run: &Run) -> Vec<String> {
+    // the advert generator's ops, interleaved with the manager's other entry points
+    let base = gen_case(rng, idx, run);
+    let mut ops = vec![];
+    for (i, op) in base.into_iter().enumerate() {
+        ops.push(op);
+        if i == 0 || rng.chance(1, 2) {
+            for _ in 0..rng.usize(0, 3) {
+                ops.push(match rng.below(4) {
+                    0 => format!("ips n={}", rng.below(4)),
+                    1 => format!("newsrc v={}", *rng.pick(&["4", "5", "up"])),
+                    2 => "rmsrc".to_string(),
+                    _ => "timesnap".to_string(),
+                });
+            }
+        }
+    }
+    ops
+}
+
 fn gen_case(rng: &mut Rng, _idx: u64, _run: &Run) -> Vec<String> {
     let lstrat = *rng.pick(&[16u8, 16, 1, 2, 5, 255, 0]);
     let mut ops = vec![format!("mgr lstrat={}", lstrat)];
@@ -69,15 +142,59 @@ fn exec_case(ops: &[String], run: &mut Run) {
     let mut lstrat = 16u8;
     let mut key = String::new();
     let mut next_id = 1u64;
+    let mut ips: Vec<IpAddr> = vec![];
     for op in ops {
         run.begin_op(op);
         let w: Vec<&str> = op.split_whitespace().collect();
         match w[0] {
+            "ips" => {
+                let n: u8 = kv(&w, "n").unwrap().parse().unwrap();
+                ips = (0..n).map(|i| IpAddr::V4(Ipv4Addr::new(10, 0, 0, 1 + i))).collect();
+                mgr.as_ref().expect("mgr first").update_ip_list(std::sync::Arc::from(ips.clone()));
+                key.push('i');
+                run.end_op_as("note ips", "ok");
+            }
+            "newsrc" => {
+                // a source created (and dropped again) through the manager's own API
+                let m = mgr.as_ref().expect("mgr first");
+                let pv = match kv(&w, "v").unwrap() {
+                    "4" => ProtocolVersion::V4,
+                    "5" => ProtocolVersion::V5,
+                    _ => ProtocolVersion::v4_upgrading_to_v5_with_default_tries(),
+                };
+                let (src, _) = m.new_source(
+                    SocketAddr::new(IpAddr::V4(Ipv4Addr::new(192, 168, 1, next_id as u8)), 123),
+                    crate::config::SourceConfig::default(),
+                    pv,
+                    NullController,
+                    None,
+                    ClockId(next_id),
+                );
+                next_id += 1;
+                drop(src);
+                key.push('n');
+                run.end_op_as("note newsrc", "ok");
+            }
+            "rmsrc" => {
+                // a source goes away: its snapshot leaves the manager's table
+                let m = mgr.as_ref().expect("mgr first");
+                let mut t = m.source_snapshots.lock().unwrap();
+                if let Some(k) = t.keys().next().copied() {
+                    t.remove(&k);
+                }
+                key.push('r');
+                run.end_op_as("note rmsrc", "ok");
+            }
+            "timesnap" => {
+                mgr.as_ref().expect("mgr first").update_time_snapshot(TimeSnapshot::default());
+                run.end_op_as("note timesnap", "ok");
+            }
             "mgr" => {
                 lstrat = kv(&w, "lstrat").unwrap().parse().unwrap();
                 let mut cfg = SynchronizationConfig::default();
                 cfg.local_stratum = lstrat;
                 mgr = Some(NtpManager::new(cfg, std::sync::Arc::from(Vec::<IpAddr>::new())));
+                ips = vec![];
                 // the model keeps the previous advertisement; a fresh manager publishes the default one
                 let s0 = mgr.as_ref().unwrap().observe();
                 run.end_op_as(
@@ -211,6 +328,9 @@ fn exec_case(ops: &[String], run: &mut Run) {
             }
             _ => run.end_op("bad-op"),
         }
+        if let Some(m) = mgr.as_ref() {
+            check_wiring(m, lstrat, &ips, run);
+        }
     }
     run.nontrivial(&key);
 }
@@ -223,6 +343,12 @@ fn entry() {
             "c33_advert",
             "1-4 update_used_sources calls on one NtpManager (local stratum 0/1/2/5/16/255): 0-6 used sources of kinds NTP (strata 0..255, with/without Bloom filter), PPS, SOCK, CSPTP, and NTP sources that have not reported; non-trivial = every case; distinct by (number of sources, all reported) per call",
             gen_case,
+            exec_case,
+        ),
+        "c33_manager" => common::drive(
+            "c33_manager",
+            "cases on one real NtpManager each (local stratum 0/1/2/5/16/255): update_used_sources calls as in c33_advert interleaved with update_ip_list, new_source (v4/v5/upgrading, created and dropped through the manager's API), removal of a source's snapshot, update_time_snapshot; after EVERY op the wiring invariant is evaluated on the manager (one server id for sources and advertisement; local stratum and address list handed on; a peer relaying the advertised filter is refused as a loop); distinct by op-kind string",
+            gen_manager_case,
             exec_case,
         ),
         other => panic!("unknown VERIF_STREAM {:?}", other),
